@@ -380,15 +380,31 @@ def rand_materials(r, shape, tiers=("iso", "diag"), p_random=0.6, sigma_e=True, 
     return {"mode": "objects", "objects": objs}
 
 
-def rand_dispersion(r, n_poles=None):
-    """Passive Lorentz / Drude poles in physical units; frequencies relative to the 50 nm grid dt."""
+def rand_dispersion(r, n_poles=None, p_per_axis=0.35):
+    """Passive Lorentz / Drude poles in physical units; frequencies relative to the 50 nm grid dt.
+
+    With probability p_per_axis a pole is diagonally anisotropic: per-axis 3-lists (x, y, z) for its parameters, one
+    axis possibly without a resonance (zero strength)."""
     dt = 0.99 / np.sqrt(3) * SPACING / 299792458.0
     poles = []
     for _ in range(int(r.integers(1, 3)) if n_poles is None else n_poles):
+        per_axis = bool(r.uniform() < p_per_axis)
+
+        def val(lo, hi, allow_zero=False):
+            if not per_axis:
+                return float(r.uniform(lo, hi))
+            v = [float(x) for x in r.uniform(lo, hi, size=3)]
+            if allow_zero and r.uniform() < 0.4:
+                v[int(r.integers(0, 3))] = 0.0
+            return v
+
+        def over_dt(v):
+            return [x / dt for x in v] if isinstance(v, list) else v / dt
+
         if r.uniform() < 0.6:
-            poles.append({"kind": "lorentz", "w0": float(r.uniform(0.1, 0.8) / dt), "gamma": float(r.uniform(0.0, 0.2) / dt), "deps": float(r.uniform(0.2, 3.0))})
+            poles.append({"kind": "lorentz", "w0": over_dt(val(0.1, 0.8)), "gamma": over_dt(val(0.0, 0.2)), "deps": val(0.2, 3.0, allow_zero=True)})
         else:
-            poles.append({"kind": "drude", "wp": float(r.uniform(0.05, 0.2) / dt), "gamma": float(r.uniform(0.0, 0.2) / dt)})
+            poles.append({"kind": "drude", "wp": over_dt(val(0.05, 0.2, allow_zero=True)), "gamma": over_dt(val(0.0, 0.2))})
     return {"poles": poles}
 
 
